@@ -450,6 +450,9 @@ def call(ctx, e, want):
         return f"({fn} {expr(ctx, args[0], t)} {expr(ctx, args[1], t)})"
     if fn in ("numpy_to_python_type", "general.numpy_to_python_type") and len(args) == 1:
         return expr(ctx, args[0], want)  # identity on values
+    if fn in ("np.array", "list", "tuple") and len(args) == 1 and not e.keywords and (infer(ctx, args[0]) or "").startswith("List") or \
+            fn == "np.array" and len(args) == 1 and isinstance(args[0], ast.ListComp):
+        return expr(ctx, args[0], want)  # array / list of a list: identity on the model's lists
     if fn in ("float", "int", "str") and len(args) == 1:
         if fn == "int" and infer(ctx, args[0]) == "Rat":
             raise Untranslatable("int() of a Rat")
@@ -732,7 +735,17 @@ def block(ctx: Ctx, stmts, ret_wrap, ind="  ") -> str:
         loop_targets = {n.id for st in s.body + s.orelse for f in ast.walk(st) if isinstance(f, ast.For) for n in ast.walk(f.target) if isinstance(n, ast.Name)}
         plain = {n.id for st in s.body + s.orelse for a in ast.walk(st) if isinstance(a, (ast.Assign, ast.AnnAssign, ast.AugAssign))
                  for t_ in (a.targets if isinstance(a, ast.Assign) else [a.target]) for n in ast.walk(t_) if isinstance(n, ast.Name)}
-        vs = [v for v in assigned(s.body + s.orelse) if v not in loop_targets or v in plain]
+        comp_targets = {n.id for st in s.body + s.orelse for c_ in ast.walk(st) if isinstance(c_, ast.comprehension) for n in ast.walk(c_.target) if isinstance(n, ast.Name)}
+
+        def plain_in(stmts_):
+            return {n.id for st in stmts_ for a in ast.walk(st) if isinstance(a, (ast.Assign, ast.AnnAssign, ast.AugAssign))
+                    for t_ in (a.targets if isinstance(a, ast.Assign) else [a.target]) for n in ast.walk(t_) if isinstance(n, ast.Name)} | \
+                   {m_ for st in stmts_ for a in ast.walk(st) if isinstance(a, ast.stmt) for m_ in [mutated_name(a)] if m_}
+
+        known_ = set(getattr(ctx, "defined", set())) | {p_ for p_, _ in getattr(ctx, "all_params", [])}
+        both = plain_in(s.body) & plain_in(s.orelse)
+        vs = [v for v in assigned(s.body + s.orelse)
+              if (v not in loop_targets or v in plain) and (v not in comp_targets or v in plain) and (v in known_ or v in both)]
         if not vs:
             return block(ctx, rest, ret_wrap, ind)
         def yield_block(st, what):
